@@ -21,6 +21,8 @@ import warnings
 
 ID = "C09"
 LEVEL = "exploration"
+SUITE_UNDER_MONITORS = True  # thorough tier: the unedited repository tests run with this property's contracts loaded
+SUITE_CONTRACTS = ("ref_events",)
 CONTRACTS = ("ref_events",)
 REACH = {"_NumbersModel.node_to_ref": "node_to_ref", "CellRange.__str__": "CellRange.__str__", "CellRange.expand_ref": "expand_ref",
          "ScopedNameRefCache.calculate_named_ranges": "calculate_named_ranges", "CellRange._format_row_span": "_format_row_span", "CellRange._format_column_span": "_format_column_span",
@@ -45,7 +47,7 @@ def floors(tier):
     return {"evaluations": int(n * .8), "distinct": int(n * .7),
             "counters": {"contract:ref_denotation": n, "contract:ref_text": int(n * .9), "references_judged_open": int(n * .22), "references_judged_reloaded": int(n * .22),
                          "cross_table_references": n // 5, "label_references_printed": 200, "qualified_references_printed": n // 10, "minimality_checked": n // 20,
-                         "fixture_references": 3000, "configurations": 30, "duplicate_table_name_configs": 5},
+                         "fixture_references": 3000, "configurations": 30, "duplicate_table_name_configs": 5, "header_label_edits": 20, "colon_node_ranges": 200},
             "hist_sizes": {"ref_shape": 4, "flags": 12}}
 
 
@@ -131,7 +133,7 @@ def judge_event(ev, doc_names, labels, rec, case, view, origin):
         rec.violation("reference_print_raised", {**fx, "exc": text[1], "span_begin_label_unique": ua, "span_end_label_unique": ub},
                       {"host": list(ev["host"]), "rows": rows, "cols": cols}, case=case)
         return
-    rec.count("references_judged_" + ("open" if view == "open" else "reloaded" if view == "reloaded" else "fixture"))
+    rec.count("references_judged_" + ("open" if view.startswith("open") else "reloaded" if view == "reloaded" else "fixture"))
     res = F.resolve(doc_names, host_tid, text, labels)
     if res[0] != "ok":
         f2 = {**fx, "why": res[0]}
@@ -253,6 +255,7 @@ def config_case(case, rec):
         if len(set(names)) < len(names):
             rec.count("duplicate_table_name_configs")
         expect = []
+        colon_expect = {}
         R = C = 6
         hosts = [(r, c) for r in range(1, 5) for c in range(1, 5)]
         per_table = max(1, case["refs"] // max(1, len(tabs)))
@@ -281,11 +284,26 @@ def config_case(case, rec):
                     r1 = rng.randint(r0, R - 1)
                     f2 = (fl[0], fl[1] if r0 != r1 else fl[0], False, False)
                     node = F.tract(T, host, r0, r1, None, None, f2, uuid)
-                else:
+                elif k < .9:
                     c0 = rng.randrange(C)
                     c1 = rng.randint(c0, C - 1)
                     f2 = (False, False, fl[2], fl[3] if c0 != c1 else fl[2])
                     node = F.tract(T, host, None, None, c0, c1, f2, uuid)
+                else:
+                    # the other attested range shape: COLON_NODE over two cell references (99 cross-table instances in the fixtures)
+                    r0 = rng.randrange(R - 1)
+                    r1 = rng.randint(r0, R - 1)
+                    c0 = rng.randrange(C - 1)
+                    c1 = rng.randint(c0 + (1 if r1 == r0 else 0), C - 1)
+                    n1 = F.cellref(T, host, r0, c0, fl[0], fl[2], uuid)
+                    n2 = F.cellref(T, host, r1, c1, fl[1], fl[3], uuid)
+                    colon = T.ASTNodeArchive(AST_node_type=T.COLON_NODE)
+                    fn = T.ASTNodeArchive(AST_node_type=T.FUNCTION_NODE, AST_function_node_index=168, AST_function_node_numArgs=1)
+                    fa = TSCE.FormulaArchive(AST_node_array=T(AST_node=[n1, n2, colon, fn]))
+                    t.cell(*host)._formula_id = m._formulas.lookup_key(t._table_id, fa)
+                    expect.append((si, ti, host))
+                    colon_expect[(si, ti, host)] = (tt._table_id, (r0, r1), (c0, c1), fl)
+                    continue
                 fn = T.ASTNodeArchive(AST_node_type=T.FUNCTION_NODE, AST_function_node_index=168, AST_function_node_numArgs=1)
                 fa = TSCE.FormulaArchive(AST_node_array=T(AST_node=[node, fn]))
                 t.cell(*host)._formula_id = m._formulas.lookup_key(t._table_id, fa)
@@ -303,18 +321,57 @@ def config_case(case, rec):
             del events[:]
             c2 = dict(case)
             c2["view"] = view
+            ftext = None
             with warnings.catch_warnings():
                 warnings.simplefilter("ignore")
                 try:
-                    _ = t.cell(*host).formula
+                    ftext = t.cell(*host).formula
                 except Exception as e:  # noqa: BLE001
                     if not events:
                         rec.violation("formula_read_raised", {"exc": type(e).__name__, "view": view}, {"host": list(host), "msg": str(e)[:200]}, case=c2)
                         continue
+            ce = colon_expect.get((si, ti, host))
+            if ce is not None and ftext is not None:
+                # a COLON_NODE range: the joined text must name the stored rectangle in the stored table
+                rec.count("colon_node_ranges")
+                target, rws, cls, flg = ce
+                text = ftext[4:-1] if ftext.startswith("SUM(") and ftext.endswith(")") else ftext
+                res = F.resolve(dn, t._table_id, text, lb)
+                fx2 = {"origin": "generated", "shape": "colon-node", "qualifiers": text.count("::")}
+                if res[0] != "ok":
+                    rec.violation("reference_text_unresolvable", {**fx2, "why": res[0]}, {"text": text, "stored": [rws, cls, list(flg)]}, case=c2)
+                elif len(res[1]) != 1:
+                    rec.violation("reference_table_ambiguous", {**fx2, "candidates": min(len(res[1]), 3)}, {"text": text, "names": doc_names_brief(dn)}, case=c2)
+                elif res[1][0] != target or res[2] != rws or res[3] != cls or tuple(res[4]) != tuple(bool(x) for x in flg):
+                    rec.violation("reference_names_other_target", {**fx2, "what": "table" if res[1][0] != target else "coordinates-or-marks", "label": False},
+                                  {"text": text, "stored": [rws, cls, list(flg)], "resolved": [res[2], res[3], list(res[4])]}, case=c2)
+                rec.case((case["rseed"], si, ti, host, view, "colon"))
             for ev in list(events):
                 judge_event(ev, dn, lb, rec, c2, view, "generated")
                 rec.case((case["rseed"], si, ti, host, view))
     read_all(doc, "open")
+    # edit header labels after the references were printed once (the name cache must follow), then read again
+    edited = 0
+    with warnings.catch_warnings():
+        warnings.simplefilter("ignore")
+        for si, ti, t in tabs:
+            hr, hc = t.num_header_rows, t.num_header_cols
+            if hr and t.num_cols - hc >= 2 and rng.random() < .7:
+                c1, c2 = rng.sample(range(hc, t.num_cols), 2)
+                a, b = t.cell(hr - 1, c1).value, t.cell(hr - 1, c2).value
+                if isinstance(a, str) and isinstance(b, str) and a != b:
+                    t.write(hr - 1, c1, b)
+                    t.write(hr - 1, c2, a)
+                    edited += 1
+            if hc and t.num_rows - hr >= 2 and rng.random() < .7:
+                r1, r2 = rng.sample(range(hr, t.num_rows), 2)
+                a = t.cell(r1, hc - 1).value
+                if isinstance(a, str):
+                    t.write(r1, hc - 1, a + " bis")
+                    edited += 1
+    if edited:
+        rec.count("header_label_edits", edited)
+        read_all(doc, "open-after-label-edit")
     path = os.path.join(docs.scratch_dir(), f"c09-{case['rseed']}.numbers")
     try:
         docs.save(doc, path)
